@@ -32,6 +32,7 @@ type Case struct {
 	M1    Msg  `json:"m1"`
 	Size2 int  `json:"size2,omitempty"` // 0: no second message; else packet size in force for M2
 	M2    *Msg `json:"m2,omitempty"`
+	Chan  int  `json:"chan,omitempty"` // 0: channel 0; 1: a logical channel (id > 0, set-up acknowledged by the peer)
 }
 
 var h *hlib.H
@@ -121,8 +122,9 @@ func setSize(ctx context.Context, ch *tds.Channel, pipe *vrt.Pipe, conn *tds.Con
 }
 
 type result struct {
-	setupErr string
-	msgs     []sent
+	setupErr    string
+	msgs        []sent
+	setupWrites int
 }
 
 func execute(c Case) (res result, x *vrt.Exec) {
@@ -138,8 +140,30 @@ func execute(c Case) (res result, x *vrt.Exec) {
 			res.setupErr = "NewChannel: " + err.Error()
 			return
 		}
+		ch0 := ch
+		if c.Chan == 1 {
+			// the peer acknowledges the set-up of logical channels with a header-only PROTACK packet
+			vrt.GoNamed("peer", func() {
+				for {
+					w := pipe.PeerRecv()
+					if w == nil {
+						return
+					}
+					if len(w) >= 8 && w[0] == 8 {
+						pipe.PeerSend(hx.Packet(11, hx.EOM, int(w[4])<<8|int(w[5]), 0, nil))
+					}
+				}
+			})
+			ch, err = conn.NewChannel()
+			if err != nil {
+				res.setupErr = "NewChannel(logical): " + err.Error()
+				return
+			}
+			res.setupWrites = len(pipe.Writes())
+		}
+		_ = ch0
 		if c.Size1 != 512 {
-			if err := setSize(ctx, ch, pipe, conn, c.Size1); err != nil {
+			if err := setSize(ctx, ch0, pipe, conn, c.Size1); err != nil {
 				res.setupErr = "setSize: " + err.Error()
 				return
 			}
@@ -147,7 +171,7 @@ func execute(c Case) (res result, x *vrt.Exec) {
 		res.msgs = append(res.msgs, sendMsg(ctx, ch, pipe, c.M1, c.Size1))
 		if c.M2 != nil {
 			if c.Size2 != c.Size1 {
-				if err := setSize(ctx, ch, pipe, conn, c.Size2); err != nil {
+				if err := setSize(ctx, ch0, pipe, conn, c.Size2); err != nil {
 					res.setupErr = "setSize(2): " + err.Error()
 					return
 				}
@@ -180,6 +204,7 @@ func check(c Case, res result, x *vrt.Exec) {
 		h.Violate("C01|setup", fmt.Sprintf("%+v: %s", c, res.setupErr), c)
 		return
 	}
+	nextNr := -1
 	for mi, s := range res.msgs {
 		body := s.size - 8
 		cls := lenClass(len(s.want), body)
@@ -217,9 +242,20 @@ func check(c Case, res result, x *vrt.Exec) {
 				h.Violate("C01|wrong-type|"+cls, fmt.Sprintf("%+v: %s: packet %d has type %d want %d", c, which, i, p.Type, s.typ), c)
 				return
 			}
-			if p.Channel != 0 {
+			if c.Chan == 0 && p.Channel != 0 {
 				h.Violate("C01|wrong-channel|"+cls, fmt.Sprintf("%+v: %s: packet %d carries channel %d", c, which, i, p.Channel), c)
 				return
+			}
+			if c.Chan == 1 {
+				if p.Channel != 1 {
+					h.Violate("C01|wrong-channel|logical|"+cls, fmt.Sprintf("%+v: %s: packet %d carries channel %d, the logical channel has id 1", c, which, i, p.Channel), c)
+					return
+				}
+				if nextNr >= 0 && p.PacketNr != nextNr {
+					h.Violate("C01|packet-number|"+cls, fmt.Sprintf("%+v: %s: packet %d carries packet number %d, expected %d (consecutive modulo 256)", c, which, i, p.PacketNr, nextNr), c)
+					return
+				}
+				nextNr = (p.PacketNr + 1) % 256
 			}
 			eom := p.Status&hx.EOM != 0
 			if eom && !last {
@@ -384,9 +420,33 @@ func main() {
 			}
 		}
 	}
+	// part 2b: the same boundary messages on a logical channel (id and consecutive packet numbers, incl. wrap-around)
+	for _, P := range []int{256, 512, 4096} {
+		body := P - 8
+		for _, L := range append(lengths(body, 3), 300*body-1, 260*body) {
+			idx++
+			if !h.Mine(idx) {
+				continue
+			}
+			for _, us := range []bool{false, true} {
+				rot++
+				m1 := Msg{Lens: []int{L}, Kinds: []int{0}, UseSend: us, Type: 15}
+				if L > 10 && L < 30000 {
+					m1 = Msg{Lens: []int{5, L - 5}, Kinds: []int{3, 1}, UseSend: us, Type: 15}
+				}
+				m2 := Msg{Lens: []int{body + 1}, Kinds: []int{1}, UseSend: !us, Type: 1}
+				run(Case{Size1: P, M1: m1, Size2: P, M2: &m2, Chan: 1})
+				h.Section("logical-channel", 1)
+			}
+		}
+	}
 	// part 3 (thorough): every packet size 256..65535, lengths k*body+d, k in 1..2
-	if h.Thorough {
-		for P := 256; P <= 65535; P++ {
+	{
+		step := 61
+		if h.Thorough {
+			step = 1
+		}
+		for P := 256; P <= 65535; P += step {
 			idx++
 			if !h.Mine(idx) {
 				continue
